@@ -130,7 +130,9 @@ func enumerateCbor(tier string, shard, n int, timeUp func() bool, emit func(p se
 			at([]seqx.Field{f}, pickSites(sites, "event", "array", "fieldsslice"), []seqx.Entry{entryLog}, []seqx.Final{send})
 		}
 	}
-	for _, t := range []time.Time{seqx.T0, seqx.TEp, seqx.TFix, seqx.TNeg, seqx.TNow, time.Unix(1, -1).UTC(), time.Unix(1700000000, 999999999), time.Unix(-1700000000, 1), time.Date(2262, 4, 11, 23, 47, 16, 854775807, time.UTC), time.Date(9999, 12, 31, 23, 59, 59, 0, time.UTC)} {
+	for _, t := range []time.Time{seqx.T0, seqx.TEp, seqx.TFix, seqx.TNeg, seqx.TNow, time.Unix(1, -1).UTC(), time.Unix(1700000000, 999999999), time.Unix(-1700000000, 1), time.Date(2262, 4, 11, 23, 47, 16, 854775807, time.UTC), time.Date(9999, 12, 31, 23, 59, 59, 0, time.UTC),
+		// sub-second instants outside the 1677..2262 range of a nanosecond count (fractions exact in binary)
+		time.Date(2300, 1, 2, 3, 4, 5, 500000000, time.UTC), time.Date(1500, 6, 7, 8, 9, 10, 250000000, time.UTC), time.Date(9999, 12, 31, 23, 59, 59, 500000000, time.UTC), time.Date(1, 1, 1, 0, 0, 0, 500000000, time.UTC)} {
 		at([]seqx.Field{{M: "Time", Key: "k", Val: t}}, pickSites(sites, "event", "context", "array", "fieldsmap"), []seqx.Entry{entryLog}, []seqx.Final{send})
 		at([]seqx.Field{{M: "Times", Key: "k", Val: []time.Time{t, seqx.TEp}}}, pickSites(sites, "event", "fieldsmap"), []seqx.Entry{entryLog}, []seqx.Final{send})
 	}
@@ -405,6 +407,7 @@ func wellFormedEvent(b []byte) (*cbor8949.Value, error) {
 
 func runC09() {
 	r := seq.New("C09", tier, "exploration")
+	defer r.CrashGuard()
 	r.Rule = "one evaluation = one logging program executed under -tags binary_log; each write is parsed by an independent generic RFC 8949 parser (exactly one item, indefinite-length map, even item count, text keys, consistent nested lengths, no reserved additional information, no dangling break) and its value tree is compared, through the documented tag semantics, with the reference encoding of the program (integers exact, float bits at the logged width, tag 1/260/261/262/263/63 payloads); distinct = distinct byte strings written; non-trivial = containers, tags or lengths >= 24 involved"
 	r.Assumptions = []string{"program set: single symbols of the class alphabet at every site, all two-symbol windows at 15 core sites, structural three-symbol windows, every definite length on both sides of 23/24, 255/256, 65535/65536, integers around every width boundary", "nil / odd-length IP and MAC values and the caller field are outside the statement and not enumerated"}
 	if !binaryBuild() {
@@ -609,6 +612,7 @@ func runC08() {
 		os.Exit(0)
 	case "compare": // CBOR build: same programs, compare with the JSON build's lines read from stdin
 		r := seq.New("C08", tier, "exploration")
+		defer r.CrashGuard()
 		r.SetShardMode()
 		var shard, n int
 		fmt.Sscanf(os.Getenv("C08_SHARD"), "%d/%d", &shard, &n)
@@ -665,6 +669,7 @@ func runC08() {
 	}
 	// driver (either build): pipe JSON-build emitters into CBOR-build comparers, one pair per shard
 	r := seq.New("C08", tier, "exploration")
+	defer r.CrashGuard()
 	r.Rule = "one evaluation = one event of one logging program executed under BOTH build tags (two binaries built from the same sources, run in lock-step over a pipe): the binary build's bytes are passed through the bundled CBOR-to-JSON decoder and compared, on decoded values, with the line the JSON build emits (same keys in the same order; integers exactly; floats as the same float32/float64; instants within 1 microsecond; strings with identical escaping; embedded JSON verbatim); distinct = distinct binary events; non-trivial = event longer than 40 bytes"
 	r.Assumptions = []string{"the JSON build runs with TimeFieldFormat=RFC3339Nano so that both sides carry the instant", "program set as for C09", "nil / odd-length IP and MAC values and the caller field are outside the statement and not enumerated"}
 	jsonBin, cborBin := os.Args[0], os.Getenv("VERIF_TWIN_BIN")
